@@ -9,6 +9,8 @@ from engine.model import src, stmt_key, walk_no_nested, dotted, AnalysisError
 from engine.util import own_nodes, calls_with_nodes, where
 
 RULES = {
+    "R-10.10": "merging an rdataset into a stored one goes through Rdataset.add, where the singleton rule (CNAME, SOA, ...), the foreign-record refusal and the TTL minimum live (C07 R-07.7 adopted)",
+    "R-10.9": "rdatasets are addressed by the full (rdclass, rdtype, covers) key wherever a zone, version, node or transaction call passes the type on; and the optional rdataset of delete()/delete_exact() is tested for presence by identity (an empty rdataset deletes nothing, it does not select the whole name)",
     "R-10.8": "what a transaction stores at a node obeys the node-level CNAME exclusivity filter (C09 R-09.3 node-filter adopted): CNAME-kind data evicts exactly the REGULAR rdatasets and vice versa",
     "R-10.7": "a rolled-back or failed transaction on a B-tree zone leaves the published version untouched only if the B-tree never writes a node it shares with it: C19 R-19.1 (ownership of every written node) is adopted",
     "R-10.1": "every public Transaction method passes _check_ended() before any low-level hook, and _check_read_only() before any mutating hook",
@@ -366,6 +368,11 @@ def run(model, rep, tier):
         rep.check(len(un) == 1 and [src(a) for a in un[0].args] == ["rdataset"], "R-10.6", ta.qualname, where(ta, ta.node), "the result is existing.union(rdataset)", "the merge is no longer existing.union(rdataset)", stmt="merge-union")
     rep.share(model, "C19", {"R-19.1"}, "R-10.7", "the B-tree zone's writable version is a copy-on-write clone of the published node map")
     rep.share(model, "C09", {"R-09.3"}, "R-10.8", "every put of a transaction ends in Node.replace_rdataset/_append_rdataset", only=lambda o: o.stmt == "node-filter")
+    rep.share(model, "C07", {"R-07.7"}, "R-10.10", "Transaction._add merges with existing.union(rdataset), i.e. Set.union_update; singleton types are kept single only by Rdataset.add")
+    from rules.common import optional_results_by_identity, key_triple_forwarded
+    optional_results_by_identity(model, rep, "R-10.9", {"dns.transaction"}, "the caller gave no rdataset/rdata arguments",
+                                 "delete(name, <empty rdataset>) falls into the delete-the-whole-name arm and removes every rdataset at the name", 1)
+    key_triple_forwarded(model, rep, "R-10.9", {"dns.node", "dns.zone", "dns.transaction", "dns.btreezone", "dns.versioned", "dns.xfr", "dns.zonefile"}, 15)
     rep.meta["explanation"] = (
         "Typestate (dominance of _check_ended/_check_read_only before hook-reaching calls, with self-call summaries), sanitiser-before-sink "
         "taint analysis of map keys with reaching definitions, ownership of mutated nodes, and CFG shape rules for the exits. "
@@ -543,6 +550,12 @@ def _for_node_kinds(model, f, cfg, rd, d) -> set:
 
 
 WITNESSES = [
+    {"id": "c10-delete-optional-rdataset-truth-tested", "rule": "R-10.9", "file": "dns/transaction.py", "expect": "fires",
+     "old": "            if rdataset is not None:\n                if rdataset.rdclass != self.manager.get_class():", "new": "            if rdataset:\n                if rdataset.rdclass != self.manager.get_class():"},
+    {"id": "c10-replace-rdataset-drops-covers", "rule": "R-10.9", "file": "dns/node.py", "expect": "fires",
+     "old": "        self.delete_rdataset(\n            replacement.rdclass, replacement.rdtype, replacement.covers\n        )", "new": "        self.delete_rdataset(replacement.rdclass, replacement.rdtype)"},
+    {"id": "c10-twin-replace-rdataset-keywords", "rule": "R-10.9", "file": "dns/node.py", "expect": "silent",
+     "old": "        self.delete_rdataset(\n            replacement.rdclass, replacement.rdtype, replacement.covers\n        )", "new": "        self.delete_rdataset(replacement.rdclass, covers=replacement.covers, rdtype=replacement.rdtype)"},
     {"id": "c10-btree-steal-writes-shared-node", "rule": "R-10.7", "file": "dns/btree.py", "expect": "fires",
      "old": "            if not right.is_minimal():\n                right = parent.maybe_cow_child(index + 1)\n", "new": "            if not right.is_minimal():\n"},
     {"id": "c10-merge-base-takes-new-ttl", "rule": "R-10.6", "file": "dns/transaction.py", "expect": "fires",
